@@ -166,7 +166,7 @@ macro_rules! impl_wide_float {
                 fn powi(mut self, mut exp: i32) -> Self {
                     if exp < 0 {
                         exp = exp.wrapping_neg();
-                        self = self.recip();
+                        self = Recip::recip(self);
                     }
 
                     Powu::powu(self, exp as u32)
